@@ -1,5 +1,9 @@
 import NbdimeModel
 import NbdimeProofs.Lemmas.SplitLines
+import NbdimeProofs.Lemmas.TsEquiv
+import NbdimeProofs.Properties.C01
+import NbdimeProofs.Properties.C02
+import NbdimeProofs.Properties.C11
 /-
   C15 — browser-side patching agrees with the Python side. Proved here: the two line splitters
   agree on every string that contains none of the eight separators Python knows and JavaScript
@@ -70,5 +74,29 @@ theorem C15_vocab_refuted : ¬ (Ts.pythonMergetoolActions.all (fun a => Ts.actio
 theorem C15_split_refuted :
     (Ts.splitLines "a b".toList).flatten ≠ "a b".toList ∧ splitLines "a\x0cb".toList ≠ Ts.splitLines "a\x0cb".toList := by
   decide
+
+
+/-- **the browser-side patcher agrees with the Python patcher** (models `Ts.patch` of patch/generic.ts + patchString /
+    flattenStringDiff, and `patch` of patching.py): on every diff that is well-formed for its canonical base document —
+    objects, arrays and strings at any depth — as long as no string of the base document contains one of the eight
+    separators the two languages split differently (finding F-splitlines is exactly the complement). -/
+theorem C15_ts_patch_eq (doc : J) (d : List Op) (hc : doc.canonical = true) (hex : Ts.noExotic doc = true)
+    (hwf : wf doc d = true) : Ts.patch doc d = patch doc d :=
+  ts_patch_eq doc d hc hex hwf
+
+/-- end to end: what the web diff view shows as the remote document. The diff the generic differ computes from `a` to `b`,
+    applied by the browser-side patcher to `a`, gives `b` (uses the round trip C02 and the well-formedness C11). -/
+theorem C15_ts_roundtrip_generic (O : Oracle) (hO : OracleOK O) (a b : J) (d : List Op)
+    (ca : a.canonical = true) (cb : b.canonical = true) (hab : Compat a b) (hex : Ts.noExotic a = true)
+    (hd : diffGeneric O a b = .ok d) : Ts.patch a d = .ok b := by
+  rw [ts_patch_eq a d ca hex (C11_generic_wf O hO a b d ca cb hab hd)]
+  exact C02_roundtrip_partial O hO a b d ca cb hab hd
+
+/-- the same for notebooks under any sound table configuration of the notebook differ -/
+theorem C15_ts_roundtrip_notebook (O : Oracle) (hO : OracleOK O) (cfg : Cfg) (hcfg : cfgSoundB cfg = true) (a b : J)
+    (d : List Op) (ca : a.canonical = true) (cb : b.canonical = true) (hab : Compat a b) (hex : Ts.noExotic a = true)
+    (hd : diffNotebooks O cfg a b = .ok d) : Ts.patch a d = .ok b := by
+  rw [ts_patch_eq a d ca hex (C11_notebook_wf O hO cfg hcfg a b d ca cb hab hd)]
+  exact C01_roundtrip_partial O hO cfg hcfg a b d ca cb hab hd
 
 end Nbdime
